@@ -216,6 +216,8 @@ func monitorUCI(sc *UCIScenario, out *UCIOutcome) (vs []Violation, windows []*go
 			add("C13", "goroutine-leak", fmt.Sprintf("%d goroutine(s) of the driver still alive after Run returned: %s", e.N, e.Data), e.Seq)
 		case "STUCK":
 			add("C13", "deadlock", "no party can make progress and no timer is armed, but Run has not returned / a bestmove is owed", e.Seq)
+		case "QUIT-IGNORED":
+			add("C13", "no-termination-on-quit", "quit was sent and every line the engine wrote was read, but Run had not returned while the input stayed open", e.Seq)
 		case "DRAIN-GIVEUP":
 			if cur != nil && owed && cur.stopReason != "" {
 				// the GUI had told the engine to stop (or went away) and the search
